@@ -144,6 +144,17 @@ func verifYieldWrite(sc *serverConn) {
 	}
 }
 
+// verifYieldServe is inserted before the select of the serve loop: while an
+// asynchronous frame write is in flight the serve goroutine, which holds no lock
+// there, parks until the controller lets it look at its channels - a serve loop
+// that is late (scheduling, GC) while a write result and the next frame from the
+// client both become ready.
+func verifYieldServe(sc *serverConn) {
+	if f := VerifYield; f != nil && sc.writingFrameAsync {
+		f("serve", sc.conn.RemoteAddr().String())
+	}
+}
+
 // verifYieldBodyRead is inserted at the start of noteBodyReadFromHandler.
 func verifYieldBodyRead(sc *serverConn) {
 	if f := VerifYield; f != nil {
